@@ -11,6 +11,8 @@ def run(tier, seed, args):
         filecommon.validate_runs(v, wd, filecommon.split_runs(args.replay), "replay", focus=("C01",))
         return v.finish()
     ps = progs.c01_programs(seed, tier)
+    import c02
+    ps += c02.xml_end_sweep(v, wd, exe, seed, "quick")
     filecommon.run_programs(v, wd, exe, ps, "c01", focus=("C01",))
     v.add(states=v.cov.get("trace_events", 0), transitions=v.cov.get("trace_events", 0),
           rule="one case = one writer program (section start residue mod 1020 x prototype family x point count incl. packet-capacity boundaries x section mixes); "
